@@ -216,6 +216,13 @@ static void run_body(int body, int nthr, int var)
 		for (int i = 0; i < nthr; i++)
 			T_JOIN(tids[i]);
 		T_FINISH();
+		if (var)
+		{
+			/* "at every later time": the process later switches the global string hash away from the
+			 * default and back (no thread is running any more) - the seed must not be drawn again */
+			json_global_set_string_hash(JSON_C_STR_HASH_PERLLIKE);
+			json_global_set_string_hash(JSON_C_STR_HASH_DFLT);
+		}
 		struct lh_table *t = lh_kchar_table_new(4, NULL);
 		unsigned long h = lh_get_hash(t, "k");
 		lh_table_free(t);
@@ -257,6 +264,7 @@ struct cfg
 static const struct cfg CFGS[] = {
     {1, 2, 0, 2, 5}, {1, 2, 1, 2, 5}, {1, 3, 0, 1, 4}, {2, 2, 0, 2, 5}, {2, 2, 1, 2, 5}, {2, 3, 0, 1, 4}, {3, 2, 0, 2, 5},
     {3, 3, 0, 1, 3}, {4, 2, 0, 2, 5}, {4, 3, 0, 1, 4}, {5, 2, 0, 1, 3}, {1, 3, 1, 1, 3}, {2, 3, 1, 1, 3}, {3, 2, 1, 2, 4},
+    {4, 2, 1, 1, 2},
 };
 #define NCFG (int)(sizeof CFGS / sizeof CFGS[0])
 
